@@ -55,7 +55,9 @@ def hexdumps(ctx, rng, n):
         data = bytes(rng.randrange(256) for _ in range(ln)) if mode < 0.6 else bytes(
             rng.choice(b"AZaz09 ~!\x00\x7f\xff\n\t") for _ in range(ln))
         offset = rng.choice([0, 0, 16, 1, 0x1000, 0xFFFFFFF0, rng.randint(0, 1 << 20)])
-        prefix = rng.choice(["", "", "> ", "\t", "xx:"])
+        # the prefix is copied verbatim in front of every line, whatever characters it contains
+        prefix = rng.choice(["", "", "> ", "\t", "xx:", "{", "}", "{}", "{0}", "{{", "}}", "%s ", "%(x)s", "{name!r}: ",
+                             "\\x1b", "buf{1} "])
         ctx.evaluation(("hexdump", data.hex(), offset, prefix))
         ctx.cell(f"len%16={ln % 16}")
         want = ref_hexdump(data, offset, prefix)
@@ -63,7 +65,8 @@ def hexdumps(ctx, rng, n):
             got = hexdump(data, offset=offset, prefix=prefix, output="string")
             gen_lines = list(hexdump(data, offset=offset, prefix=prefix, output="generator"))
         except Exception as e:  # noqa: BLE001
-            ctx.violation("hexdump", f"hexdump-raises:{type(e).__name__}", {"data": data.hex(), "offset": offset})
+            ctx.violation("hexdump", f"hexdump-raises:{type(e).__name__}", {"data": data.hex(), "offset": offset,
+                                                                             "prefix": prefix, "error": lib.exc_sig(e)})
             continue
         if got != want or "\n".join(gen_lines) != want:
             ctx.violation("hexdump", "hexdump-differs-from-reference-formatter",
